@@ -102,6 +102,29 @@ _INSTANCE_KEY_COUNTER = itertools.count(1)
 _INSTANCE_KEYS: dict[int, tuple[weakref.ref[Any], int]] = {}
 
 
+def _is_call_param_itself(ctx: Any, pname: str, value: Any) -> bool:
+    """Is ``value`` the ``input_params`` entry ``pname`` itself?
+
+    Call parameters are traced as constants; a keyword that merely shares the
+    parameter's NAME may carry a derived value (``scale=scale + 1.0``), which must
+    not be replaced by the graph input.  Traced values cannot be compared and keep
+    the by-name wiring (function bodies receive the parameter as a tracer).
+    """
+    if hasattr(value, "aval"):
+        return True
+    literals = getattr(ctx, "_call_input_param_literals", None)
+    if not isinstance(literals, dict) or pname not in literals:
+        return True
+    try:
+        passed = np.asarray(value)
+        declared = np.asarray(literals[pname])
+        return bool(
+            passed.shape == declared.shape and np.array_equal(passed, declared)
+        )
+    except Exception:
+        return True
+
+
 def _instance_key_for(instance: Any) -> int:
     known = _INSTANCE_KEYS.get(id(instance))
     if known is not None and known[0]() is instance:
@@ -958,7 +981,9 @@ class FunctionPlugin(PrimitivePlugin):
                     }
                 )
                 capture_items.append((pname, _capture_dynamic_from_var(resolved)))
-            elif pname in call_param_names:
+            elif pname in call_param_names and _is_call_param_itself(
+                ctx, pname, original_val
+            ):
                 if hasattr(original_val, "aval"):
                     aval = getattr(original_val, "aval", None)
                     shape = tuple(getattr(aval, "shape", ()))
